@@ -1,5 +1,5 @@
 """Reusable rule templates (DESIGN.md §5)."""
-from facts import field_reads, norm, short, subnodes
+from facts import field_reads, norm, short, subnodes, call_name
 
 POS_TYPES = ("nitrogql_ast::base::Pos", "nitrogql_ast::base::Keyword")
 
@@ -362,8 +362,9 @@ def memo_key_gaps(fn, guard, pv):
     (other than the state holder and `&mut` sinks) that the key expression does not derive from"""
     key_params, holder = set(), set()
     for y in subnodes(guard):
-        if y.get("k") == "MethodCall" and (y.get("method") in ("insert", "contains", "contains_key", "get", "replace", "entry", "remove")
-                                           or stateful_adt(PROGRAM_FOR_MEMO, str(y.get("recv_ty", "")))):
+        if y.get("k") == "MethodCall" and (y.get("method") in ("insert", "contains", "contains_key", "get", "replace", "entry", "remove", "get_mut", "take",
+                                                                 "get_or_insert_with", "get_or_init")
+                                           or (PROGRAM_FOR_MEMO is not None and _wrapper_is_memo(PROGRAM_FOR_MEMO, call_name(y)))):
             for a in y["args"]:
                 key_params |= {p[1] for p in pv.atoms(a) if p[0] == "param"}
             holder |= {p[1] for p in pv.atoms(y["recv"]) if p[0] == "param"}
@@ -597,6 +598,63 @@ def _memo_table():
     return _MEMO_TABLE
 
 
+_COLLECTION = _re.compile(r"HashMap<|HashSet<|BTreeMap<|BTreeSet<|IndexMap<|IndexSet<|LruCache<|Vec<|VecDeque<")
+_WRAPPER_MEMO = {}
+
+
+def _wrapper_is_memo(P, callee):
+    """a workspace method that consults or records membership in an interior-mutable *collection* of its receiver
+    (`self.seen.borrow_mut().insert(k)`, `self.cache.borrow().get(k)`): calling it in a guard is a memo guard"""
+    if not callee or callee not in P.fns:
+        return False
+    key = (id(P), callee)
+    if key not in _WRAPPER_MEMO:
+        f = P.fns[callee]
+        ok = False
+        for y in f.walk():
+            if y.get("k") == "MethodCall" and y.get("method") in _MEMO_METHODS:
+                t = str(y.get("recv_ty", "")) + " " + str(y["recv"].get("t", ""))
+                if _COLLECTION.search(t) and _re.search(r"cell::Ref<|RefMut<|RefCell<|MutexGuard<|Mutex<", t):
+                    ok = True
+                    break
+        _WRAPPER_MEMO[key] = ok
+    return _WRAPPER_MEMO[key]
+
+
+def _reports(block):
+    """does this block construct a diagnostic / error value (a variant or struct whose path mentions Error, or `Err(..)`)"""
+    for y in subnodes(block):
+        k = y.get("k")
+        if k == "Struct" and "rest" not in y and "Error" in norm(y.get("variant") or y.get("adt") or ""):
+            return True
+        if k == "Call" and (call_name(y) or "").endswith(("Result::Err", "::Err")):
+            return True
+        if k == "Path" and "Error" in norm(y.get("def") or "") and str(y.get("dk", "")).startswith("Ctor"):
+            return True
+    return False
+
+
+_STORING = ("insert", "or_insert", "or_insert_with", "push", "push_back", "extend", "entry", "replace", "set", "get_or_insert_with")
+
+
+def _only_stored(fn, pv, pname, state_atoms):
+    """every use of parameter `pname` in fn is (inside) an argument of a storing method *of the guarded state itself*"""
+    lids = [lid for lid, nm in pv.params.items() if nm == pname]
+    if not lids:
+        return False
+    stored_nodes = set()
+    for y in fn.walk():
+        if y.get("k") == "MethodCall" and y.get("method") in _STORING:
+            ra = {a for a in pv.atoms(y["recv"]) if a[0] in ("param", "field", "def")}
+            if not (ra & state_atoms):
+                continue
+            for a in y["args"]:
+                for z in subnodes(a):
+                    stored_nodes.add(id(z))
+    uses = [y for y in fn.walk() if y.get("k") == "Path" and y.get("local") in lids]
+    return bool(uses) and all(id(u) in stored_nodes for u in uses)
+
+
 def memo_guard_sites(P, prefixes):
     """[(fn, signature, gaps, key params, holder params, state type)] for every guard in functions under `prefixes` that consults
     run-time state (a `&mut`-borrowed or interior-mutable collection, a thread-local) through a membership/look-up method.
@@ -611,11 +669,20 @@ def memo_guard_sites(P, prefixes):
             continue
         pv = Prov(f)
         for i, g, t, blocks in gs:
-            calls = [y for y in subnodes(g) if y.get("k") == "MethodCall" and (y.get("method") in _MEMO_METHODS or stateful_adt(P, str(y.get("recv_ty", ""))))
-                     and _is_state(P, str(y.get("recv_ty", "")) + " " + str(y["recv"].get("t", "")))]
+            calls = [y for y in subnodes(g) if y.get("k") == "MethodCall" and _is_state(P, str(y.get("recv_ty", "")) + " " + str(y["recv"].get("t", "")))
+                     and (y.get("method") in _MEMO_METHODS or _wrapper_is_memo(P, call_name(y)))]
             if not calls:
                 continue
+            # (1) a duplicate check is not a memo: when "already present" leads to a diagnostic / an Err, nothing is skipped silently
+            if any(_reports(b) for b in blocks):
+                continue
             gaps, key, holder = memo_key_gaps(f, g, pv)
+            # (2) a builder is not a memo: a parameter that is only ever *stored* into the state (insert / or_insert / push / extend
+            # argument) defines the entry instead of being an input of skipped work
+            state_atoms = set()
+            for y in calls:
+                state_atoms |= {a for a in pv.atoms(y["recv"]) if a[0] in ("param", "field", "def")}
+            gaps = [x for x in gaps if not _only_stored(f, pv, x, state_atoms)]
             kf = set()
             for y in calls:
                 for a in y["args"]:
